@@ -19,11 +19,20 @@ Definition face_row (f : face) : list nat := let '(a, b, c) := f in [a; b; c].
 Definition tri_row (t : option (vec3 Q * vec3 Q * vec3 Q)) : list Q :=
   match t with Some (a, b, c) => vlist a ++ vlist b ++ vlist c | None => [] end.
 
+(* closeness relative to the magnitude of the inputs only (no absolute floor): a prism of size 1e-9 is compared as
+   strictly as one of size 1 *)
+Definition close_rel (mag a b : Q) : bool :=
+  Qle_bool (Qabs (a - b)) (tol * Qmax' mag (Qmax' (Qabs a) (Qabs b))).
+Definition fl_close_rel (mag m : Q) (o : fl) : bool := match o with Fin q => close_rel mag m q | _ => false end.
+Definition list_close_rel mag (m : list Q) (o : list fl) : bool := all2 (fl_close_rel mag) m o.
+Definition vecs_close_rel mag (m : list (vec3 Q)) (o : list (list fl)) : bool :=
+  all2 (fun v r => list_close_rel mag (vlist v) r) m o.
+
 Definition agree (mag : Q) (m : result (list (vec3 Q) * list face)) (o : oshape) : bool :=
   match m, o with
   | Ok (vs, fs), Ok (ov, ofs, oflat) =>
-      vecs_close_mag mag vs ov && all2 nat_list_eqb (map face_row fs) ofs &&
-      all2 (list_close_mag mag) (map tri_row (flatten vs fs)) oflat
+      vecs_close_rel mag vs ov && all2 nat_list_eqb (map face_row fs) ofs &&
+      all2 (list_close_rel mag) (map tri_row (flatten vs fs)) oflat
   | Raise e, Raise e' => exn_eqb e e'
   | _, _ => false
   end.
